@@ -443,6 +443,8 @@ def roots(tier, seed):
     else:
         nprocs = [(1, None), (2, None), (3, None), (4, None), (5, None), (None, 2), (None, 16)]
         maxlen = 4
+        # (--nproc 5 and cpu_count 16 induce the same chunking as --nproc 4 for <= 4 files; they are
+        #  kept for batches of <= 2 files only, where they exercise the option parsing cheaply)
     combos = _combos(tier)
     for L in range(1, maxlen + 1):
         for batch in itertools.permutations(stems, L):
@@ -452,9 +454,11 @@ def roots(tier, seed):
                     if L == 2 and nproc == 1:
                         sel = combos
                 else:
-                    # full product for traditional; the other kinds on the batches that
-                    # contain the 500 Hz file (the only ones where anything can differ).
-                    sel = [c for c in combos if c[1] == "trad" and c[0] == "pre_plain" or "B500" in batch]
+                    if L > 2 and (nproc == 5 or cpu == 16):
+                        continue
+                    # every settings combination on the batches that contain the 500 Hz file (the
+                    # only ones where an FFT length can leak); plain traditional everywhere.
+                    sel = [c for c in combos if c == ("pre_plain", "trad") or "B500" in batch]
                 for (pre, proc) in sel:
                     out.append(dict(files=list(batch), nproc=nproc, cpu=cpu, pre=pre, proc=proc))
     return out
